@@ -3,6 +3,7 @@ package runtime
 import (
 	"errors"
 	"fmt"
+	"math"
 	"unsafe"
 
 	"github.com/arnodel/golua/code"
@@ -456,18 +457,24 @@ RunLoop:
 			stop := getReg(regs, cells, stopReg)
 			step := getReg(regs, cells, stepReg)
 			if opcode.GetF() {
-				// Advance for loop.  All registers are assumed to contain
-				// numeric values because they have been prepared previously.
+				// Advance for loop.  prepfor has made start, stop and step all
+				// integers (integer loop) or all floats (float loop).
 				nextStart, _ := Add(start, step)
 
-				// Check if the loop is done.  It can be done if we have gone
-				// over the stop value or if there has been overflow /
-				// underflow.
+				// Check if the loop is done.  It continues while the next value
+				// is <= stop (>= stop if the step is not positive); an integer
+				// loop also ends if the addition has overflowed / underflowed.
 				var done bool
-				if isPositive(step) {
-					done = numIsLessThan(stop, nextStart) || numIsLessThan(nextStart, start)
+				if _, ok := nextStart.TryInt(); ok {
+					if isPositive(step) {
+						done = numIsLessThan(stop, nextStart) || numIsLessThan(nextStart, start)
+					} else {
+						done = numIsLessThan(nextStart, stop) || numIsLessThan(start, nextStart)
+					}
+				} else if isPositive(step) {
+					done = !(nextStart.AsFloat() <= stop.AsFloat())
 				} else {
-					done = numIsLessThan(nextStart, stop) || numIsLessThan(start, nextStart)
+					done = !(nextStart.AsFloat() >= stop.AsFloat())
 				}
 				if done {
 					nextStart = NilValue
@@ -494,27 +501,39 @@ RunLoop:
 					}
 					return nil, fmt.Errorf("'for' %s: expected number, got %s", role, val.CustomTypeName())
 				}
-				// Make sure start and step have the same numeric type
-				if tstart != tstep {
-					// One is a float, one is an int, turn them both to floats
-					if tstart == IsInt {
-						start = FloatValue(float64(start.AsInt()))
-					} else {
-						step = FloatValue(float64(step.AsInt()))
-					}
-				}
 				// A 0 step is an error
 				if isZero(step) {
 					c.pc = pc
 					return nil, errors.New("'for' step is zero")
 				}
-				// Check the loop is not already finished. If so, startReg is
-				// set to nil.
+				// done is set if the loop is already finished, in which case
+				// startReg is set to nil.
 				var done bool
-				if isPositive(step) {
-					done, _ = isLessThan(stop, start)
+				if tstart == IsInt && tstep == IsInt {
+					// Integer loop: the limit is clipped to an integer.
+					var limit int64
+					limit, done = forLimit(stop, step.AsInt())
+					stop = IntValue(limit)
+					if !done {
+						if isPositive(step) {
+							done = limit < start.AsInt()
+						} else {
+							done = start.AsInt() < limit
+						}
+					}
 				} else {
-					done, _ = isLessThan(start, stop)
+					// Float loop: the three values are converted to floats.
+					fstart, _ := ToFloat(start)
+					fstop, _ := ToFloat(stop)
+					fstep, _ := ToFloat(step)
+					start, stop, step = FloatValue(fstart), FloatValue(fstop), FloatValue(fstep)
+					// The loop runs while start <= stop (>= if the step is not
+					// positive), so not at all if one of them is NaN.
+					if fstep > 0 {
+						done = !(fstart <= fstop)
+					} else {
+						done = !(fstart >= fstop)
+					}
 				}
 				if done {
 					start = NilValue
@@ -528,6 +547,33 @@ RunLoop:
 		}
 	}
 	// return nil, errors.New("Invalid PC")
+}
+
+// forLimit clips the limit of an integer for loop to an integer: a float
+// limit is rounded towards the start of the loop (floor if the step is
+// positive, ceil if it is negative) and a limit beyond the integer range
+// becomes the largest / smallest integer.  The second result is true if the
+// loop cannot run at all (NaN limit, or a limit beyond the integer range on the
+// side the loop is moving away from).
+func forLimit(limit Value, step int64) (int64, bool) {
+	if n, ok := limit.TryInt(); ok {
+		return n, false
+	}
+	f := limit.AsFloat()
+	if step > 0 {
+		f = math.Floor(f)
+	} else {
+		f = math.Ceil(f)
+	}
+	switch {
+	case f != f:
+		return 0, true
+	case f >= twoTo63:
+		return math.MaxInt64, step < 0
+	case f < -twoTo63:
+		return math.MinInt64, step > 0
+	}
+	return int64(f), false
 }
 
 // DebugInfo implements Cont.DebugInfo.
